@@ -44,6 +44,8 @@ def run(ctx):
     K.check_keygen(ctx, P)
     K.check_seeded_derivation(ctx, P)
     K.check_core_table(ctx, P, methods=("sign", "partial_sign", "pop_prove", "verify", "partial_verify", "pop_verify", "multi_sig_verify"))
+    with ctx.prefixed("nodebug|"):
+        K.check_core_table(ctx, ctx.prog("blst", "nodebug"), methods=("sign", "partial_sign", "pop_prove", "verify", "partial_verify", "pop_verify", "multi_sig_verify"))
     # the user-facing proof-of-possession entry points are the draft's PopProve / PopVerify
     K.check_pop_chain(ctx, P)
     # compressed point encoding for the byte form of keys and proofs of possession
